@@ -44,8 +44,8 @@ type scOp struct {
 	status int
 	body   []byte
 	chunk  bool
-	cond   bool // origin honours If-None-Match: 304 when it names the current ETag
-	cl0    bool // ... and that 304 carries Content-Length: 0 (legal, unusual)
+	cond   bool   // origin honours If-None-Match: 304 when it names the current ETag
+	cl0    bool   // ... and that 304 carries Content-Length: 0 (legal, unusual)
 	cc304  string // ... and this Cache-Control instead of the 200's ("" = the same as the 200's, "-" = none at all: a bare 304)
 }
 
@@ -142,6 +142,31 @@ func syscGen(g *hx.Gen, id int) (int, []scOp) {
 			ops = append(ops, scOp{kind: 'T', dt: 1}, r)
 		}
 		ops = append(ops, mk(false), r, r)
+		return force, ops
+	}
+	if g.Chance(5) {
+		// directed history: a stored entry goes stale and its revalidation is answered with an UNSTORABLE status that carries
+		// a body (503 page, 500, 403 ...; no stale-if-error): the old entry must not live on as if it had been confirmed
+		// (finding C09-e is the bodiless case; seeded change C09-m8: the clean-up after the failed write skipped)
+		p := paths[0]
+		version++
+		o := scOp{kind: 'O', path: p, status: 200, rerr: -1, chunk: g.Chance(30), cond: g.Bool(),
+			hdr: [][2]string{{"Cache-Control", "max-age=5"}, {"ETag", "\"e" + hx.I(version) + "\""}}, body: []byte("body-" + p + "-v" + hx.I(version) + "-" + g.Str("abcdef", 12))}
+		version++
+		bad := scOp{kind: 'O', path: p, status: []int{503, 500, 403, 410, 201}[g.Intn(5)], rerr: -1, chunk: g.Chance(30),
+			hdr: [][2]string{{"Content-Type", "text/plain"}}, body: []byte("unstorable-" + p + "-v" + hx.I(version) + "-" + g.Str("abcdef", 12))}
+		if g.Bool() {
+			bad.hdr = append(bad.hdr, [2]string{"Cache-Control", "max-age=5"})
+		}
+		version++
+		o2 := scOp{kind: 'O', path: p, status: 200, rerr: -1, cond: g.Bool(),
+			hdr: [][2]string{{"Cache-Control", "max-age=5"}, {"ETag", "\"e" + hx.I(version) + "\""}}, body: []byte("body-" + p + "-v" + hx.I(version) + "-" + g.Str("abcdef", 12))}
+		r := scOp{kind: 'R', method: "GET", path: p}
+		rc := scOp{kind: 'R', method: "GET", path: p, hdr: [][2]string{{"If-None-Match", "\"e" + hx.I(version-2) + "\""}}}
+		ops := []scOp{o, r, {kind: 'T', dt: 6 + g.Intn(30)}, bad, r, r, o2, r}
+		if g.Bool() {
+			ops = append(ops, rc, scOp{kind: 'T', dt: 2}, r)
+		}
 		return force, ops
 	}
 	if g.Chance(7) {
